@@ -183,6 +183,63 @@ func runC03() {
 				}
 			}
 		}
+		// duplicate, then update BOTH: Output (and With) hand out a logger with its own context buffer, so in-place
+		// UpdateContext calls on the original and on the duplicate - in either order, with fields of different
+		// lengths - must not see each other
+		if shard == 0 {
+			for _, dup := range []seqx.Step{{Op: "Output"}, {Op: "WithEmpty"}, {Op: "With", Fields: []seqx.Field{{M: "Int", Key: "d", Val: 1}}}} {
+				for _, ctxLen := range []int{0, 1, 40, 480} {
+					for order := 0; order < 2; order++ {
+						var l0, l1 [][]byte
+						w := &seqx.World{Log: &seqx.HookLog{}}
+						w.Writers = append(w.Writers, lineCollector{&l0}, lineCollector{&l1})
+						orig, mo := zerolog.New(w.Writers[0]), seqx.RefLogger{Level: zerolog.TraceLevel}
+						if ctxLen > 0 {
+							orig, mo = seqx.ApplyStep(w, orig, mo, seqx.Step{Op: "With", Fields: []seqx.Field{{M: "Str", Key: "base", Val: strings.Repeat("b", ctxLen)}}})
+						} else {
+							orig, mo = seqx.ApplyStep(w, orig, mo, seqx.Step{Op: "WithEmpty"})
+						}
+						copyL, mc := seqx.ApplyStep(w, orig, mo, dup)
+						upd := func(lg *zerolog.Logger, m *seqx.RefLogger, f seqx.Field) {
+							lg.UpdateContext(func(c zerolog.Context) zerolog.Context { return seqx.ApplyContext(c, f) })
+							m.Ctx = append(m.Ctx, seqx.FieldsExp([]seqx.Field{f})...)
+						}
+						fo := seqx.Field{M: "Str", Key: "uo", Val: "x"}
+						fc := seqx.Field{M: "Str", Key: "uc", Val: "a much longer value than the other one"}
+						if order == 0 {
+							upd(&orig, &mo, fo)
+							upd(&copyL, &mc, fc)
+						} else {
+							upd(&copyL, &mc, fc)
+							upd(&orig, &mo, fo)
+						}
+						desc := fmt.Sprintf("New(w).With[base %d bytes], duplicate by %s, UpdateContext on both (order %d)", ctxLen, dup.Op, order)
+						for i, pair := range []struct {
+							lg *zerolog.Logger
+							m  seqx.RefLogger
+						}{{&orig, mo}, {&copyL, mc}} {
+							l0, l1 = nil, nil
+							pair.lg.Info().Msg("m")
+							ex := seqx.ExpectEvent(pair.m, seqx.Entry{Kind: "Info"}, nil, msgM)
+							lines := append(append([][]byte{}, l0...), l1...)
+							r.Eval(fmt.Sprint(desc, i, lines), true)
+							r.Transitions++
+							if len(lines) != 1 {
+								r.Violation("", "dup-update/writes", fmt.Sprintf("%s: logger %d wrote %d lines", desc, i, len(lines)), desc)
+								continue
+							}
+							root, err := jsonstrict.ParseLine(lines[0])
+							if err == nil {
+								err = seqx.MatchFields(root, ex.Fields)
+							}
+							if err != nil {
+								r.Violation("", "dup-update/"+dup.Op, fmt.Sprintf("%s: logger %d (0 = original, 1 = duplicate) emits %q: %v", desc, i, lines[0], err), desc)
+							}
+						}
+					}
+				}
+			}
+		}
 		// the package-level helpers of zerolog/log must derive exactly what the methods derive
 		if shard == 0 {
 			logHelpers(r)
